@@ -261,3 +261,12 @@ func verifHeapRemove(i int) *tssItem { return heap.Remove(&tssQ, i).(*tssItem) }
 //@ func writeNTSKEErrorMsgTLS
 //@   noframe
 //@   requires conn != nil && log != nil
+// The same over SCION/QUIC: one connection, handed over by the listener after its handshake completed.
+//@ func handleKeyExchangeQUIC
+//@   noframe
+//@   nonnil conn.AcceptStream
+//@   requires conn != nil && log != nil && provider != nil
+//@   requires tlsdone()
+//@ func writeNTSKEErrorMsgQUIC
+//@   noframe
+//@   requires stream != nil && log != nil
